@@ -118,6 +118,43 @@ def gen_exprs(rng, n, sum_op, prod_op, carrier, max_leaves, wrappers, repeat=Fal
     return out
 
 
+def gen_nested(rng, n, sum_op, prod_op, carrier):
+    """products of separately reduced groups (the same bound name may be reduced in several groups), optionally
+    reduced again outside"""
+    from lang.prog import binary, leaf, reduce_, type_of
+    out = []
+    for _ in range(n):
+        groups = []
+        li = 0
+        disjoint = rng.random() < 0.5        # groups over disjoint variable sets: no name is bound twice
+        for g_ in range(2 if disjoint else rng.randint(2, 3)):
+            k = rng.randint(1, 2)
+            e = None
+            pool = VARS[2 * g_: 2 * g_ + 2] if disjoint else VARS
+            for _i in range(k):
+                vs = [v for v in pool if rng.random() < 0.6][:2] or [pool[0]]
+                lf = leaf("f%d" % li, tuple(vs), (), carrier)
+                li += 1
+                e = lf if e is None else binary(prod_op, e, lf)
+            ins = [(kk, d[1]) for kk, d in type_of(e)[0].items()]
+            red = tuple(v for v in ins if rng.random() < 0.6)
+            if red:
+                e = reduce_(sum_op, e, red)
+            groups.append(e)
+        e = groups[0]
+        for g_ in groups[1:]:
+            e = binary(prod_op, e, g_)
+        try:
+            ins = [(kk, d[1]) for kk, d in type_of(e)[0].items()]
+        except Exception:
+            continue
+        red = tuple(v for v in ins if rng.random() < 0.5) if not disjoint else ()
+        if red:
+            e = reduce_(sum_op, e, red)
+        out.append((e, ()))
+    return out
+
+
 def build_obligation(inst):
     _, sr, prog, optimize = inst[:4]
     aliases = dict(inst[4]) if len(inst) > 4 else {}
@@ -275,6 +312,9 @@ def instances(tier, seed):
                     out.append(("adj", sr, p, True, al))
                 if wrappers or repeat or rng.random() < 0.3:
                     out.append(("adj", sr, p, "reflect", al))
+        for p, al in gen_nested(rng, 40 if tier == "quick" else 400, sr[0], sr[1], sr[2]):
+            for mode in (False, True, "reflect"):
+                out.append(("adj", sr, p, mode, al))
     return out
 
 
